@@ -630,6 +630,11 @@ def check_order(rec, perm_pred, base_pred, x_perm, case, sig):
 # --------------------------------------------------------------------------
 # driver
 # --------------------------------------------------------------------------
+def mod_bmci():
+    from typhon.retrieval.bmci import bmci as mod
+    return mod
+
+
 def make(rec, y, x, S, case):
     from typhon.retrieval.bmci import bmci as mod
     try:
@@ -663,7 +668,8 @@ def run_db(rec, g, only=None):
         ref = ref_of(bm)
         if only is None or only.get("obs") == "batch":
             for x2b in (-1.0, 1.0):
-                check_batch(rec, bm, obs, x2b, g, p)
+                check_batch(rec, bm, obs, x2b, g, p,
+                            twin=lambda: mod_bmci().BMCI(yy.copy(), xx.copy(), S.copy()))
             if only is not None:
                 continue
         for j, yo in enumerate(obs):
@@ -699,7 +705,7 @@ def run_db(rec, g, only=None):
                                         dict(case, method="predict_quantiles"), sig)
 
 
-def check_batch(rec, bm, obs, x2, g, p):
+def check_batch(rec, bm, obs, x2, g, p, twin=None):
     """predict() on a batch of observations must give, row by row, what it gives for each row alone
     (rows with and without support mixed in both orders)."""
     obs = np.asarray(obs)
@@ -734,16 +740,17 @@ def check_batch(rec, bm, obs, x2, g, p):
         # call history on one caller-owned observation buffer (vt/monitors/history.py): the batch is
         # reversed in place between two calls that pass the same array object
         from vt.monitors import history
-        for name, fn, args in (("predict", bm.predict, (np.array(obs, dtype=float), x2)),
-                               ("weights", bm.weights, (np.array(obs[0], dtype=float).reshape(1, -1), x2)),
-                               ):
-            if name == "weights" and obs.shape[1] < 2:
-                continue
-            if name == "weights":
-                # a (1, m) row: reverse along the channel axis instead (an (m,) vector is what is updated)
-                args = (np.array(obs[0], dtype=float), x2)
+        tw = twin() if twin is not None else None
+        row = np.array(obs[0], dtype=float)
+        taus = np.array([0.1, 0.5, 0.9])
+        for name, args in (("predict", (np.array(obs, dtype=float), x2)),
+                           ("weights", (row, x2)), ("cdf", (row, x2)),
+                           ("predict_quantiles", (row.reshape(1, -1), taus, x2))):
+            if name in ("weights", "cdf") and obs.shape[1] < 2:
+                continue   # (an (m,) vector is what is updated in place: needs two channels)
+            fn = getattr(bm, name)
             rec.ev()
-            verdict, detail = history.reuse_check(fn, args)
+            verdict, detail = history.reuse_check(fn, args, fresh_fn=getattr(tw, name) if tw is not None else None)
             rec.count("history.reuse_" + verdict.replace("/", ""))
             if verdict == "stale":
                 rec.violation("bmci-stale-state", case, dict(detail, method=name))
